@@ -2,8 +2,8 @@
 From S2T Require Import Lib.PyStr.
 
 Definition g_enc_streams : list str := [(s "EncryptionInfo"); (s "EncryptedPackage"); (s "DataSpaces")].
-Definition g_ppt_streams : list str := [(s "EncryptedSummary"); (s "EncryptedSummaryInformation")].
-Definition g_ppt_token_aware : bool := false.
+Definition g_ppt_streams : list str := [(s "EncryptedSummary"); (s "EncryptedSummaryInformation"); (s "Current User")].
+Definition g_ppt_token_aware : bool := true.
 Definition g_xls_ints : list N := [0; 4; 2; 47]%N.
 Definition g_min_doc_size : nat := 512.
 Definition g_doc_magics : list N := [42476; 42460]%N.
